@@ -690,3 +690,10 @@ Theorem C15_bytes_consumed :
     (docend <= total -> (Z.of_N docend <= eff_limit limit)%Z -> docend <= consumed_of limit docend total).
 Proof. exact consumed_of_spec. Qed.
 Print Assumptions C15_bytes_consumed.
+
+(* the index of the referrers tag schema: refused unread when over the limit, else read whole *)
+Theorem C15_bytes_consumed_index :
+  forall limit size,
+    (Z.of_N (consumed_index limit size) <= eff_limit limit)%Z /\ consumed_index limit size <= size.
+Proof. exact consumed_index_spec. Qed.
+Print Assumptions C15_bytes_consumed_index.
